@@ -222,6 +222,8 @@ def check(case, acc):
             acc.feature("input_2d")
             mat = np.array(rows)
             _cmp(acc, "ragged_slice(2-D)", exp, observe(lambda: ragged_slice(mat.copy(), st, en)))
+            _cmp(acc, "ragged_slice(2-D, column-major)", exp, observe(lambda: ragged_slice(np.asfortranarray(mat), st, en)))
+            _cmp(acc, "ragged_slice(2-D, transposed view)", exp, observe(lambda: ragged_slice(mat.T.copy().T, st, en)))
     elif kind == "rslice_none":
         from npstructures import ragged_slice
         _cmp(acc, "ragged_slice(no bounds)", R(rows), observe(lambda: ragged_slice(_ra(rows))))
